@@ -4,6 +4,7 @@ For every line prints `A` when the model's canonical result equals the implement
 `D<TAB>model-result`.  Unknown op: `U`.
 -/
 import SpatialId
+import SpatialId.F64
 open SpatialId
 
 def sortStrs (l : List String) : List String := (l.toArray.qsort (fun a b => a < b)).toList
@@ -44,6 +45,64 @@ def parseQV (s : String) : Option QV :=
 
 def intsOf (s : String) : List Int := (commaSplit s).map int!
 def sortInts (l : List Int) : List Int := (l.toArray.qsort (fun a b => a < b)).toList
+
+/-- floats travel as the decimal value of their bit pattern -/
+def fb (s : String) : Option F64.Dy := F64.ofBits s.toNat!
+def showF (x : F64.Dy) : String := toString (F64.toBits x)
+def f2 (a b : String) (f : F64.Dy → F64.Dy → F64.Dy) : String :=
+  match fb a, fb b with
+  | some x, some y => showF (f x y)
+  | _, _ => "NONFINITE"
+
+/-! ### points (binary64) -/
+structure PtArg where
+  isNil : Bool
+  lon : F64.Dy
+  lat : F64.Dy
+  alt : F64.Dy
+  u : F64.Dy
+  latBits : Nat
+
+def parsePtArg (s : String) : Option PtArg :=
+  match s.splitOn ":" with
+  | ["nil", _, _, _] => some ⟨true, F64.zero, F64.zero, F64.zero, F64.zero, 0⟩
+  | [a, b, c, d] =>
+    match fb a, fb b, fb c, fb d with
+    | some lon, some lat, some alt, some u => some ⟨false, lon, lat, alt, u, b.toNat!⟩
+    | _, _, _, _ => none
+  | _ => none
+
+def showGeo (p : GeoPt) : String := showF p.lon ++ ":" ++ showF p.lat ++ ":" ++ showF p.alt
+
+/-- model of the `pts`/`ptssp` ops: construct the points (harness: any NewPoint error ⇒ ERR), then the library call -/
+def ptsModel (items : List String) (h v : Int) (sp : Bool) : String :=
+  match items.mapM parsePtArg with
+  | none => "BADARG"
+  | some args =>
+    match args.mapM (fun a => if a.isNil then some none else (newPoint a.lon a.lat a.alt).map fun p => some (p, a.u)) with
+    | none => "ERR"
+    | some pts =>
+      showOut ((pointsToExt pts h v).map fun l => commaJoin (l.map fun e => if sp then e.spId else e.id))
+
+/-- geometry ops: extended or spatial ID string, option, oracle row latitudes -/
+def geomModel (id : String) (opt : Int) (north south : F64.Dy) (sp : Bool) : String :=
+  showOut (((if sp then pointOnSp else pointOnExt) id opt north south).map fun l => commaJoin (l.map showGeo))
+
+/-- independent evaluation of the Mercator fraction with the C library (Lean `Float`): used only to compare the
+implementation's libm with a second libm inside a stated band, never inside a definition a theorem mentions -/
+def mercUFloat (latBits : Nat) : Float :=
+  let lat := Float.ofBits (UInt64.ofNat latBits)
+  let r := lat * (3.141592653589793 / 180.0)
+  1.0 - Float.log (Float.tan r + 1.0 / Float.cos r) / 3.141592653589793
+
+/-- `none` = the independent libm gives the same row; `some true` = differs but within the band 2^-44 on u;
+`some false` = differs outside the band -/
+def yBand (latBits : Nat) (h y : Int) : Option Bool :=
+  let t := Float.scaleB (mercUFloat latBits) (h - 1)
+  if (Float.floor t).toInt64.toInt == y then none
+  else
+    let d := Float.abs (t - Float.round t)
+    some (d <= Float.scaleB 1.0 (h - 1 - 44))
 
 def dispatch (op : String) (a : List String) : Option String :=
   match op, a with
@@ -95,6 +154,39 @@ def dispatch (op : String) (a : List String) : Option String :=
   | "ashift", [i, sh] => some (toString (arithShift (int! i) (int! sh)))
   | "comb", [n, k] =>
     some (";".intercalate ((combinations (int! n) (int! k) 10000).map fun p => " ".intercalate (p.map toString)))
+  | "fadd", [a, b] => some (f2 a b F64.add)
+  | "fsub", [a, b] => some (f2 a b F64.sub)
+  | "fmul", [a, b] => some (f2 a b F64.mul)
+  | "fdiv", [a, b] => some (f2 a b F64.div)
+  | "ffloor", [a] => some (match fb a with | some x => showF (F64.floor x) | none => "NONFINITE")
+  | "fceil", [a] => some (match fb a with | some x => showF (F64.ceil x) | none => "NONFINITE")
+  | "fofint", [i] => some (showF (F64.ofInt (int! i)))
+  | "flt", [a, b] => some (match fb a, fb b with | some x, some y => (if F64.lt x y then "true" else "false") | _, _ => "NONFINITE")
+  | "newpt", [a, b, c] =>
+    some (match fb a, fb b, fb c with
+      | some lon, some lat, some alt => (match newPoint lon lat alt with | some p => showGeo p | none => "ERR")
+      | _, _, _ => "NONFINITE")
+  | "pts", [items, h, v] => some (ptsModel (commaSplit items) (int! h) (int! v) false)
+  | "ptssp", [items, z] => some (ptsModel (commaSplit items) (int! z) (int! z) true)
+  | "geom", [id, opt, n, sth] =>
+    some (match fb n, fb sth with | some a, some b => geomModel id (int! opt) a b false | _, _ => "NONFINITE")
+  | "geomsp", [id, opt, n, sth] =>
+    some (match fb n, fb sth with | some a, some b => geomModel id (int! opt) a b true | _, _ => "NONFINITE")
+  | "ctrrt", [id] => some (match parseExt id with | some e => e.id | none => "ERR")
+  | "nest", [lon, lat, alt, hf, vf, hc, vc, u] =>
+    some (match fb lon, fb lat, fb alt, fb u with
+      | some lon, some lat, some alt, some u =>
+        (match newPoint lon lat alt with
+         | none => "ERR"
+         | some p =>
+           let fine := pointToExt p u (int! hf) (int! vf)
+           let coarse := pointToExt p u (int! hc) (int! vc)
+           if !(checkZoom (int! hf) && checkZoom (int! vf) && checkZoom (int! hc) && checkZoom (int! vc)) then "ERR"
+           else coarse.id ++ ";" ++ commaJoin (sortStrs ((changeExtE [fine] (int! hc) (int! vc)).map Ext.id)))
+      | _, _, _, _ => "NONFINITE")
+  | "zio", [id, _, _] => some (match parseExt id with | some e => e.id | none => "ERR")
+  | "mrgkids", [id, _, _] => some (match parseExt id with | some e => e.id | none => "ERR")
+  | "ovkids", [_, _, _] => some "true"
   | "ovE", [a, b] => some (showBool (overlapExt a b))
   | "ovEA", [a, b] => some (showBool (overlapExtArr (commaSplit a) (commaSplit b)))
   | "ovS", [a, b] => some (showBool (overlapSp a b))
@@ -119,6 +211,67 @@ def dispatch (op : String) (a : List String) : Option String :=
   | "voxid", [id] => some (showOut ((voxelId id).map showInts))
   | _, _ => none
 
+/-- exact (rational) indices of C01 for a stored point: x = ⌊2^h (lon+180)/360⌋ with 180 read as -180, f = ⌊alt·2^v/2^25⌋ -/
+def exactX (lon : F64.Dy) (h : Int) : Int :=
+  let lon := if F64.eq lon c180 then F64.neg lon else lon
+  -- (m·2^e + 180)·2^h / 360 ; scale numerator and denominator to integers
+  let s : Nat := (-(min lon.e 0)).toNat
+  let num : Int := (lon.m * 2 ^ (lon.e + s).toNat + 180 * 2 ^ s) * 2 ^ h.toNat
+  num / (360 * 2 ^ s)
+def exactF (alt : F64.Dy) (v : Int) : Int := F64.floorInt ⟨alt.m, alt.e + v - 25⟩
+
+/-- classify an x mismatch: `XROUND` when the computed index is the exact one plus 1 and the point lies within
+2^-51 of the world width below that tile's west edge (binary64 rounding of `lon+180` or of the quotient) -/
+def classifyX (lon : F64.Dy) (h : Int) : String :=
+  let ex := exactX lon h
+  let cx := xIndex lon h
+  let lon' := if F64.eq lon c180 then F64.neg lon else lon
+  let s : Nat := (-(min lon'.e 0)).toNat
+  let num : Int := (lon'.m * 2 ^ (lon'.e + s).toNat + 180 * 2 ^ s) * 2 ^ h.toNat
+  let den : Int := 360 * 2 ^ s
+  -- gap = (ex+1) - X = ((ex+1)·den - num)/den ≤ 2^(h-51)  ⇔  ((ex+1)·den - num)·2^51 ≤ den·2^h
+  if cx == ex + 1 && ((ex + 1) * den - num) * 2 ^ 51 ≤ den * 2 ^ h.toNat then
+    s!"XROUND x: exact floor {ex} vs computed {cx} (point within 2^-51 of the world width below the tile edge)"
+  else s!"XWRONG x: exact floor {ex} vs computed {cx}"
+
+/-- classify an f mismatch: `FUNDER` when a negative altitude underflows to -0 in `alt / 2^(25-v)` -/
+def classifyF (alt : F64.Dy) (v : Int) : String :=
+  let ef := exactF alt v
+  let cf := fIndex alt v
+  if ef == -1 && cf == 0 && alt.m < 0 && decide (alt.m.natAbs * 2 ^ (alt.e + v - 25 + 1075).toNat < 1 ∨ alt.e + v - 25 + 1075 < 0 ∨
+      (alt.m.natAbs : Int) * 2 ^ (alt.e + v - 25 + 1075).toNat ≤ 1) then
+    s!"FUNDER f: exact floor -1 vs computed 0 (negative altitude underflows to -0)"
+  else s!"FWRONG f: exact floor {ef} vs computed {cf}"
+
+/-- property checkers run on cases where model and implementation agree: `none` = fine, `some (true, _)` = inside a
+stated numeric band (`B`), `some (false, reason)` = property failure (`P`) -/
+def propCheck (op : String) (a : List String) : Option (Bool × String) :=
+  match op, a with
+  | "pts", [items, h, _] | "ptssp", [items, h] =>
+    if !checkZoom (int! h) then none else
+    match (commaSplit items).mapM parsePtArg with
+    | none => none
+    | some args =>
+      args.foldl (fun acc p =>
+        match acc with
+        | some (false, _) => acc
+        | _ =>
+          if p.isNil then acc else
+          match newPoint p.lon p.lat p.alt with
+          | none => acc
+          | some q =>
+            if exactF q.alt (int! (a.getD 2 (a.getD 1 "0"))) != fIndex q.alt (int! (a.getD 2 (a.getD 1 "0"))) then
+              some (false, classifyF q.alt (int! (a.getD 2 (a.getD 1 "0"))))
+            else if exactX q.lon (int! h) != xIndex q.lon (int! h) then
+              some (false, classifyX q.lon (int! h))
+            else
+            -- the stored latitude's bits
+            match yBand (F64.toBits q.lat) (int! h) (yIndex p.u (int! h)) with
+            | none => acc
+            | some true => some (true, "libm band")
+            | some false => some (false, s!"row {yIndex p.u (int! h)} disagrees with an independent libm outside the 2^-44 band")) none
+  | _, _ => none
+
 partial def loop (h : IO.FS.Stream) (out : IO.FS.Stream) : IO Unit := do
   let line ← h.getLine
   if line.isEmpty then return ()
@@ -131,7 +284,13 @@ partial def loop (h : IO.FS.Stream) (out : IO.FS.Stream) : IO Unit := do
     let impl := rest.getLast!
     match dispatch op args with
     | none => out.putStrLn "U"
-    | some m => if m == impl then out.putStrLn "A" else out.putStrLn ("D\t" ++ m)
+    | some m =>
+      if m == impl then
+        match propCheck op args with
+        | none => out.putStrLn "A"
+        | some (true, _) => out.putStrLn "B"
+        | some (false, r) => out.putStrLn ("P\t" ++ r)
+      else out.putStrLn ("D\t" ++ m)
   loop h out
 
 def main : IO Unit := do
